@@ -126,9 +126,9 @@ PROPS['C09'] = {
     'decided': ['Ukkonen matcher (Verus, unbounded): with_capacity, find_all_end and Matches::next on the real code — every reported pair (i, d) has d <= k and d == ed(i+1, m), the Sellers recurrence with the cost function as substitution cost; every end position passed over without a report has ed > k; the cut-off invariant (cells beyond lastk are above k, stale cells >= k) is preserved across calls, for every deterministic cost closure, every k and m with m + k + 2^32 < usize::MAX, and every reuse of the Ukkonen object',
                 'distance::hamming equals the textbook Hamming distance (equal lengths: the documented panic is the precondition); levenshtein, simd::hamming, simd::levenshtein and simd::bounded_levenshtein equal the textbook definitions GIVEN the assumed contracts of the external crates they delegate to - in particular the clamp of the bound to max(|a|,|b|) never changes the answer (lev <= max length proved), so None is returned exactly when the distance exceeds k; the `as u32` truncations are exact below 2^32 symbols',
                 'one Myers column step (the real Myers::<T>::_step, T in u8/u16/u32 quick, u64 thorough) maps the bit-encoded DP column of the edit-distance recurrence to the next column, exactly, for every pattern length up to the word width, every match mask and every column (complete for the width: fixed-count loops with unwinding assertions)'],
-    'decided_extra': ['one block step of the block-based Myers algorithm (the real long.rs advance_block, T in u8/u16 quick, u32/u64 thorough; complete Kani proofs over the whole word width): the bit-encoded vertical deltas of one block and the incoming horizontal delta map to exactly the edit-distance recurrence column of the block, the outgoing horizontal delta at the bound row and the distance update'],
+    'decided_extra': ['theorem_ed_is_min (unit C09/ukkonen): the Sellers recurrence `ed` the matcher is proved against equals the minimum, over all start positions, of the textbook edit distance `lev` between the pattern (prefix) and the text substring ending at the position - so the reported d is literally "the minimum edit distance between the pattern and any text substring ending at that position"', 'one block step of the block-based Myers algorithm (the real long.rs advance_block, T in u8/u16 quick, u32/u64 thorough; complete Kani proofs over the whole word width): the bit-encoded vertical deltas of one block and the incoming horizontal delta map to exactly the edit-distance recurrence column of the block, the outgoing horizontal delta at the bound row and the distance update'],
     'undecided': ['the induction over text positions (find_all_end/distance/find_best_end live in impl_myers! macro code)', 'block-based Myers (long.rs) beyond the block step: States::step (carry propagation between blocks, the max_dist band), the iteration layer',
-                  'the equivalence of the Sellers recurrence with the minimum over explicit alignments (textbook; the recurrence is the specification here)', 'the external crates triple_accel and editdistancek themselves (assumed contracts; covered by the bounded stand-in only)'],
+                  'edit distance as a minimum over explicit edit scripts (the textbook Wagner-Fischer recursion `lev` is taken as the definition of edit distance)', 'the external crates triple_accel and editdistancek themselves (assumed contracts; covered by the bounded stand-in only)'],
     'trusted': ['std::cmp::min spec, Enumerate<slice::Iter> model and the enumerate_slice stub (Ukkonen unit; generic text iterator instantiated at &[u8])', 'cost closure assumed deterministic and total (requires of find_all_end)', 'ASSUMED: editdistancek::{edit_distance, edit_distance_bounded}, triple_accel::{hamming, levenshtein_exp} compute the textbook distances', 'Kani/CBMC; dist <= 200 and non-negative column entries assumed in the harness (true of every reachable column)'],
     'level_text': 'Verus proves the Ukkonen cut-off matcher (find_all_end + Matches::next) equal to the edit-distance recurrence for all inputs and all reuse histories. Complete (not bounded) Kani proofs that one column step of the real bit-parallel Myers implementation equals the DP recurrence, per word width; everything around the step (iteration over the text, the block version, the distance functions) is not decided by this check.',
     'level_note': 'Level other (partial): the step is proved, the property as a whole is not. Trusted: Kani 0.68/CBMC 6.11; harness assumptions listed in evidence.',
